@@ -1,6 +1,6 @@
 #!/usr/bin/env python3
 """Regenerate tables/instance_floors.json from the evidence of a run on the pinned tree:
-floor = 60% of the instances each rule produced (at least 1).  Run by hand after reviewing the counts."""
+floor = 60% of the instances each rule produced (at least 1); after regenerating, floors of existing rules are only ever lowered and new rules start at 3 at most (see DESIGN 10.2).  Run by hand after reviewing the counts."""
 import glob, json, os
 V = os.path.dirname(os.path.dirname(os.path.abspath(__file__)))
 out = {}
